@@ -37,7 +37,8 @@ V0(e, p) == IF HasP(e, p) THEN V(e, p) ELSE 0
 
 AcsSame(b, e) ==
   IF ~b.out.acs.ok \/ ~e.out.acs.ok THEN b.out.acs.ok = e.out.acs.ok /\ (b.out.acs.ok \/ b.out.acs.err = e.out.acs.err)
-  ELSE b.out.acs.nonfinite \/ e.out.acs.nonfinite \/ Abs(b.out.acs.v - e.out.acs.v) <= 200
+  ELSE b.out.acs.nonfinite \/ e.out.acs.nonfinite \/ Abs(b.out.acs.v - e.out.acs.v) <= 200 + (Abs(b.out.acs.v) \div 5000)   \* (a fraction far above 1 - demand
+                                                     \* inconsistent with the supply - carries the f32 noise of its size)
 
 Judge(e) ==
   IF e.tag = "base" THEN {}
